@@ -212,6 +212,18 @@ func Check[P any](t *testing.T, prop, name string, gen func(*rapid.T) P, run fun
 	})
 }
 
+// CheckOne judges one program outside rapid (native fuzz targets): same recording, same fail file.
+func CheckOne[P any](t *testing.T, prop, name string, p P, run func(P) *Result) {
+	r := Guard(func() *Result { return run(p) })
+	if record(name, p, r) {
+		return
+	}
+	if r.Fail != nil && !r.Discard {
+		writeFail(prop, name, p, r.Fail)
+		t.Fatalf("VERIF-FAIL sig=%q\n%s", r.Fail.Sig, r.Fail.Msg)
+	}
+}
+
 // Replay re-executes every saved program of this test found in $VERIF_REPLAY_DIR, without rapid.
 // A still-failing replay prints "REPLAY-FAIL file=<path> sig=<sig>" and fails the test; the driver
 // decides whether that is a known finding or a violation.
@@ -277,5 +289,8 @@ func Flush() {
 	mu.Lock()
 	defer mu.Unlock()
 	b, _ := json.Marshal(stats)
+	if _, err := os.Stat(path); err == nil {
+		path = fmt.Sprintf("%s.%d", path, os.Getpid())
+	}
 	_ = os.WriteFile(path, b, 0o644)
 }
